@@ -48,8 +48,12 @@ def deep_merge_shape(ck, rule, name='deep_merge'):
     key = A.unparse(lp.target.elts[0]) if isinstance(
         lp.target, ast.Tuple) else A.unparse(lp.target)
     rec = [c for c in A.calls_in(lp, name)]
+    val = A.unparse(lp.target.elts[1]) if isinstance(
+        lp.target, ast.Tuple) and len(lp.target.elts) == 2 else None
     ok = bool(rec) and all(
-        A.unparse(A.arg_of(c, 0)) == '%s[%s]' % (dct, key) for c in rec)
+        A.unparse(A.arg_of(c, 0)) == '%s[%s]' % (dct, key) and
+        A.unparse(A.arg_of(c, 1)) in ('%s[%s]' % (mrg, key), val)
+        for c in rec)
     ck.require(ok, rule, f, rec[0] if rec else lp,
                'nested dictionaries are merged recursively into dct[key]',
                '%s does not recurse into dct[key] for nested dictionaries: '
@@ -68,7 +72,8 @@ def deep_merge_shape(ck, rule, name='deep_merge'):
         A.unparse(s.value) in ('%s[%s]' % (mrg, key),) or (
             isinstance(lp.target, ast.Tuple) and A.unparse(s.value) ==
             A.unparse(lp.target.elts[1])) or '_multi_update' in
-        A.unparse(s.value) for s in writes)
+        A.unparse(s.value) or 'MULTI_UPDATE_KEY' in A.unparse(s.value)
+        for s in writes)
     ck.require(ok, rule, f, writes[0] if writes else lp,
                'otherwise the value merged in is written under the key',
                '%s does not write merge_dct[key] into dct[key] in its '
@@ -305,3 +310,206 @@ def update_in_shape(ck, rule):
     ck.require(bool(st), rule, f, f.node.name,
                'the updated child is stored under its key in the result',
                None)
+
+
+
+def deep_copy_internal_shape(ck, rule):
+    """deep_copy_internal copies the dictionary structure at every depth and
+    hands back its argument only when that is not a dictionary."""
+    dci = ck.fn('deep_copy_internal', 'library.dict_utils')
+    p0 = A.params_of(dci.node)[0]
+    ok = False
+    for r in A.walk_no_nested(dci.node):
+        if isinstance(r, ast.Return) and isinstance(r.value, ast.DictComp):
+            dc = r.value
+            g = dc.generators[0]
+            ok = A.unparse(g.iter) == p0 + '.items()' and not g.ifs and \
+                isinstance(dc.value, ast.Call) and A.call_name(
+                    dc.value) == dci.node.name and isinstance(
+                    g.target, ast.Tuple) and A.unparse(
+                    dc.key) == A.unparse(g.target.elts[0]) and A.unparse(
+                    A.arg_of(dc.value, 0)) == A.unparse(g.target.elts[1])
+    cdc = cfg_of(dci.node)
+    for r in A.walk_no_nested(dci.node):
+        if isinstance(r, ast.Return) and A.is_name(r.value, p0):
+            g = cdc.guards(cdc.node(r))
+            only = g <= {('notisinstance', p0, 'dict')} and bool(g)
+            ck.require(only, rule, dci, r,
+                       'the argument is returned as it is only when it is '
+                       'not a dictionary',
+                       'deep_copy_internal returns its argument uncopied '
+                       'under %s: (empty) dictionaries of the original are '
+                       'shared with the copy and a later merge into the '
+                       'copy writes into the original' % sorted(g), r)
+    ck.require(ok, rule, dci, dci.node.name,
+               'deep_copy_internal copies the dictionary structure at every '
+               'depth (recursive call on every value)',
+               'deep_copy_internal no longer recurses into every value: '
+               'deeper dictionaries stay shared with the original')
+
+
+def paths_to_dict_shape(ck, rule):
+    """paths_to_dict places every (path, value) pair at its path: through
+    assoc_path, or by a descent that continues from the level reached."""
+    f = ck.fn('paths_to_dict', 'library.topology')
+    plist = A.params_of(f.node)[0]
+    loops = [l for l in A.walk_no_nested(f.node) if isinstance(l, ast.For)
+             and plist in A.names_in(l.iter)]
+    ck.require(len(loops) == 1, rule, f, f.node.name,
+               'paths_to_dict visits every (path, value) pair',
+               'paths_to_dict no longer iterates the list of pairs')
+    if not loops:
+        return
+    lp = loops[0]
+    ap = [c for c in A.calls_in(lp, 'assoc_path')]
+    rets = {r.value.id for r in _rets(f) if isinstance(r.value, ast.Name)}
+    if ap:
+        pv = A.unparse(lp.target.elts[0]) if isinstance(
+            lp.target, ast.Tuple) else None
+        ok = all(isinstance(A.arg_of(c, 0), ast.Name) and
+                 A.arg_of(c, 0).id in rets and
+                 A.unparse(A.arg_of(c, 1)) == pv for c in ap)
+        ck.require(ok, rule, f, ap[0],
+                   'each value is placed at its own path of the result',
+                   'paths_to_dict does not place the value at its path in '
+                   'the returned dictionary', ap[0])
+    # hand-written descent: x = <y>.setdefault(key, {}) must continue from
+    # the level reached (y is x), starting at the result
+    steps = [s2 for s2 in A.walk_no_nested(lp) if isinstance(s2, ast.Assign)
+             and isinstance(s2.value, ast.Call) and A.call_name(
+                 s2.value) == 'setdefault' and isinstance(
+                 s2.targets[0], ast.Name)]
+    ck.require(bool(steps) or bool(ap), rule, f, lp,
+               'intermediate levels are created on the way down',
+               'paths_to_dict neither uses assoc_path nor descends with '
+               'setdefault: the idiom is not recognised', lp)
+    for s2 in steps:
+        inner = any(isinstance(p, ast.For) and p is not lp
+                    for p in _ancestors(s2, lp))
+        recv = A.call_receiver(s2.value)
+        ok = (not inner) or A.is_name(recv, s2.targets[0].id)
+        ck.require(ok, rule, f, s2,
+                   'the descent continues from the level reached',
+                   'every level is created at `%s` instead of below the '
+                   'previous level: paths of three or more keys are '
+                   'flattened into the wrong place' % A.unparse(recv), s2)
+
+
+def _ancestors(x, stop):
+    p = getattr(x, '_parent', None)
+    while p is not None and p is not stop:
+        yield p
+        p = getattr(p, '_parent', None)
+
+
+def make_path_dict_shape(ck, rule):
+    """make_path_dict reads every value at its full path from the
+    dictionary it was given."""
+    f = ck.fn('make_path_dict', 'library.dict_utils')
+    p0 = A.params_of(f.node)[0]
+    stores = [s2 for s2 in A.walk_no_nested(f.node)
+              if isinstance(s2, ast.Assign) and isinstance(
+                  s2.targets[0], ast.Subscript)]
+    stores += [dc for dc in ast.walk(f.node) if isinstance(dc, ast.DictComp)]
+    ck.require(bool(stores), rule, f, f.node.name,
+               'make_path_dict fills the flat dictionary', None)
+    for s2 in stores:
+        if isinstance(s2, ast.DictComp):
+            key, v, at = s2.key, s2.value, s2
+        else:
+            key, v, at = s2.targets[0].slice, s2.value, s2
+        ok = isinstance(v, ast.Call) and A.call_name(v) in (
+            'get_value_from_path', 'get_in') and A.is_name(
+            A.arg_of(v, 0), p0) and A.unparse(A.arg_of(v, 1)) == \
+            A.unparse(key)
+        ck.require(ok, rule, f, at,
+                   'the value stored under a path is read at that whole '
+                   'path from the dictionary given',
+                   'make_path_dict stores %s under %s: the value is not '
+                   'looked up at the full path (two stores of the same '
+                   'name in different branches are mixed up)' % (
+                       A.unparse(v), A.unparse(key)), at)
+
+
+
+def normalize_path_shape(ck, rule, above_root=False):
+    """normalize_path drops the previous step on '..' and keeps every other
+    step, whatever its value."""
+    np_ = ck.fn('normalize_path', 'library.topology')
+    cfg = cfg_of(np_.node)
+    ok = False
+    for node in cfg.stmt_nodes():
+        g = cfg.guards(node)
+        if any(a[0] == '==' and "'..'" in a[1:] for a in g):
+            st = cfg.info[node]['stmt']
+            if isinstance(st, ast.Assign) and isinstance(
+                    st.value, ast.Subscript) and isinstance(
+                    st.value.slice, ast.Slice) and A.unparse(
+                    st.value.slice.upper) == '-1':
+                ok = True
+            if isinstance(st, ast.Expr) and isinstance(
+                    st.value, ast.Call) and A.call_name(st.value) == 'pop':
+                ok = True
+    ck.require(ok, rule, np_, np_.node.name,
+               "normalize_path drops the previous step on '..'",
+               "normalize_path no longer resolves '..'")
+    # ... whenever there is a previous step to drop
+    for node in cfg.stmt_nodes():
+        g = cfg.guards(node)
+        st = cfg.info[node]['stmt']
+        drops = (isinstance(st, ast.Assign) and isinstance(
+            st.value, ast.Subscript) and isinstance(
+            st.value.slice, ast.Slice) and A.unparse(
+            st.value.slice.upper) == '-1') or (
+            isinstance(st, ast.Expr) and isinstance(st.value, ast.Call)
+            and A.call_name(st.value) == 'pop')
+        if not drops or not any(a[0] == '==' and "'..'" in a[1:]
+                                for a in g):
+            continue
+        other = [a for a in g if not (a[0] == '==' and "'..'" in a[1:])]
+        fine = all((a[0] == '<' and a[1] == '0' and a[2].startswith('len('))
+                   or (a[0] == '!=' and '0' in a[1:] and any(
+                       x.startswith('len(') for x in a[1:]))
+                   or a[0] == 'truthy' for a in other)
+        nonempty = any((a[0] == '<' and a[1] == '0' and a[2].startswith(
+            'len(')) or a[0] == 'truthy' or (a[0] == '!=' and '0' in a[1:])
+            for a in other)
+        # (only where paths that climb above their start are in scope: no
+        # well-formed topology has one, the path algebra quantifies over them)
+        ck.require(nonempty or not above_root, rule, np_, st,
+                   "a '..' with nothing before it is kept (it climbs above "
+                   'the start of the path)',
+                   "normalize_path resolves every '..', also when no step "
+                   "precedes it: a path that climbs above its start loses "
+                   "the '..' and resolves to a node inside the tree, while "
+                   'walking it fails', st)
+        ck.require(fine, rule, np_, st,
+                   "'..' drops the previous step whenever there is one",
+                   "normalize_path resolves '..' only under %s: with fewer "
+                   "steps collected the '..' stays in the written path "
+                   'while the tree walk goes up' % sorted(other), st)
+    # every other step is kept, whatever its value (0, '' and False are
+    # legal keys of the hierarchy)
+    for lp in A.walk_no_nested(np_.node):
+        if not isinstance(lp, ast.For) or not isinstance(
+                lp.target, ast.Name):
+            continue
+        sv = lp.target.id
+        keeps = [c for c in A.calls_in(lp, ('append', 'extend'))
+                 if c.args and sv in A.names_in(c.args[0])]
+        keeps += [s2 for s2 in A.walk_no_nested(lp)
+                  if isinstance(s2, (ast.Assign, ast.AugAssign))
+                  and sv in A.names_in(s2.value)
+                  and not isinstance(s2.value, ast.Subscript)]
+        ck.require(bool(keeps), rule, np_, lp,
+                   'steps other than a resolved ".." are kept', None, lp)
+        base = cfg.guards(cfg.loops[id(lp)]['body_entry'])
+        for k in keeps:
+            extra = cfg.guards(cfg.node(k)) - base
+            bad = [a for a in extra
+                   if "'..'" not in str(a) and 'len(' not in str(a)]
+            ck.require(not bad, rule, np_, k,
+                       'a step is kept whatever its value',
+                       'normalize_path keeps a step only under %s: a falsy '
+                       'key (0, "", False) is dropped from every write '
+                       'path while reads still resolve it' % sorted(bad), k)
